@@ -17,7 +17,7 @@ func TestMain(m *testing.M) {
 		"rapid histories (<= 25 ops) from 3 node sockets plus sockets that never associated: every request kind (Heartbeat, Association Setup, Establishment, Modification, Deletion), unknown node ids, missing Node ID / CP F-SEID, equal CP SEIDs chosen by different peers, "+
 			"Create PDRs with and without UE IP address, unknown SEIDs of every class; oracle per request: an answer arrives only at the sending socket, echoes the sequence number, has the matching type; session-level answers carry the addressed session's CP SEID or SEID 0 with cause 65; "+
 			"an accepted Establishment Response carries the UPF node id, a UP F-SEID (which an immediately following Modification addresses successfully) and one Created PDR per Create PDR with UE IP; a request answered with an error cause or not at all leaves server snapshot and model data plane unchanged; "+
-			"all Heartbeat / Association Setup Responses carry byte-identical recovery time stamps. non-trivial = history with >= 1 unanswered or error-answered request and two live sessions with equal CP SEIDs; distinct by history",
+			"all Heartbeat / Association Setup Responses carry byte-identical recovery time stamps; a socket's latest request sent once more byte for byte (after whatever other traffic) is answered at that socket by the datagram that answered the first copy, or not at all, and changes nothing. non-trivial = history with >= 1 unanswered or error-answered request and two live sessions with equal CP SEIDs; distinct by history",
 		"CP SEIDs are unique per peer", "model data plane (kernel semantics) instead of gtp5g")
 	vcore.Main(m)
 }
@@ -40,6 +40,9 @@ func account(c sessmodel.Case, r sessmodel.Result) {
 	}
 	if r.Stats.EqualCP {
 		vcore.E.Class("equal_cp_seids")
+	}
+	if r.Stats.Dups > 0 {
+		vcore.E.Class("with_retransmitted_request")
 	}
 	if (r.Stats.Unanswered > 0 || r.Stats.ErrorAnswered > 0) && r.Stats.EqualCP {
 		vcore.E.NonTrivial(vcore.JSON(c))
